@@ -311,6 +311,7 @@ class AwsHooks:
         fn = num.fn
         st.notes.setdefault("memw", []).append((e.get("loc", [0])[0], repr(args[0]) if args[0] is not None else "?"))
         st.notes.setdefault("memw_full", []).append((e.get("loc", [0])[0], args[0], args[2] if len(args) > 2 else None))
+        num.cell_store(st, args[0])
         tgt = target_of(num, st, e["a"][0])
         if tgt is not None:
             tt = num.ty(tgt)
@@ -347,7 +348,16 @@ class AwsHooks:
         if p is not None and n is not None:
             flag = R
             (m,) = R.t.keys()
-            st.cond[m[0]] = {"nz": [("cmp", ">=", R, p), ("cmp", "<", R, p + n)], "z": []}
+            nz = [("cmp", ">=", R, p), ("cmp", "<", R, p + n)]
+            ch = args[1]
+            if ch is not None and ch.is_const():
+                # the byte found is the one searched for: it is not a byte already known to hold something else
+                for (a2, s2, v2) in st.notes.get("cells", []):
+                    if s2 == 1 and v2.is_const() and v2.cval() != ch.cval() and entails(st, a2 - p):
+                        if entails(st, p - a2):
+                            nz.append(("cmp", ">=", R, a2 + 1))
+                st.notes["cells"] = list(st.notes.get("cells", [])) + [(R, 1, Poly.const(ch.cval() & 0xFF))]
+            st.cond[m[0]] = {"nz": nz, "z": []}
         return R
 
     def s_strlen(self, num, st, e, args):
@@ -618,11 +628,12 @@ def in_bounds(st, D, n):
         hi_ok = lo_ok and entails(st, off + n - ext)
         if lo_ok and hi_ok:
             return ("ok", "offset %r, size %r within %r bytes at %s" % (off, n, ext, a), a, off)
-        if a in direct:
+        if a in direct or lo_ok:
+            # (an address the state places at or after the start of a tracked object is an address into that object)
             why.append("object %s: offset %r %s 0; offset+size %r %s extent %r" % (a, off, ">=" if lo_ok else "NOT >=", off + n, "<=" if hi_ok else "NOT <=", ext))
     if n.is_const() and n.cval() == 0:
         return ("ok", "zero-length access")
-    if not direct:
+    if not why:
         return ("untracked", "no tracked object in %r" % D)
     return ("fail", "; ".join(why))
 
